@@ -88,24 +88,34 @@ def locate_statements():
     # AsyncResult.__call__: `if self.expired: return`, the three publishing stores
     node, off = _func_ast(AsyncResult.__call__)
     found = set()
-    for st in node.body:
+    for st in ast.walk(node):
         if isinstance(st, ast.If) and "d2" not in found and any(
                 isinstance(n, ast.Attribute) and n.attr == "expired" for n in ast.walk(st.test)):
-            put(AsyncResult.__call__, st.lineno, off, "d2", ("branch", set(range(st.body[0].lineno + off, st.body[-1].end_lineno + off + 1))))
+            put(AsyncResult.__call__, st.lineno, off, "d2", "pre")
             found.add("d2")
         for attr, lab in (("_is_exc", "d3"), ("_obj", "d4"), ("_is_ready", "d5")):
             if _assigns_self_attr(st, attr):
                 put(AsyncResult.__call__, st.lineno, off, lab, "pre")
                 found.add(lab)
     missing += ["AsyncResult.__call__:" + x for x in ("d2", "d3", "d4", "d5") if x not in found]
-    # AsyncResult.wait: the while test, the final readiness test
+    # AsyncResult.wait: the readiness test that guards the serve() call (the `while` test, or an `if` inside a loop),
+    # and the final readiness test after the loop
     node, off = _func_ast(AsyncResult.wait)
-    loops = [st for st in node.body if isinstance(st, ast.While)]
+
+    def mentions_ready(test):
+        return any(_is_self_attr(n, "_is_ready") for n in ast.walk(test))
+    loops = [st for st in node.body if isinstance(st, (ast.While, ast.For))]
     if loops:
         w = loops[0]
-        body = set(range(w.body[0].lineno + off, w.body[-1].end_lineno + off + 1))
-        put(AsyncResult.wait, w.lineno, off, "w0", ("branch", body))
-        after = [st for st in node.body if isinstance(st, ast.If) and st.lineno > w.lineno]
+        if isinstance(w, ast.While) and mentions_ready(w.test):
+            put(AsyncResult.wait, w.lineno, off, "w0", "pre")
+        else:
+            inner = [st for st in ast.walk(w) if isinstance(st, ast.If) and mentions_ready(st.test)]
+            if inner:
+                put(AsyncResult.wait, inner[0].lineno, off, "w0", "pre")
+            else:
+                missing.append("AsyncResult.wait:w0")
+        after = [st for st in node.body if isinstance(st, ast.If) and st.lineno > w.end_lineno and mentions_ready(st.test)]
         if after:
             put(AsyncResult.wait, after[0].lineno, off, "w9", "pre")
         else:
@@ -148,7 +158,7 @@ def locate_statements():
     loops = [st for st in ast.walk(node) if isinstance(st, ast.While)]
     if loops:
         w = loops[0]
-        put(BgServingThread._bg_server, w.lineno, off, "b0", ("branch", set(range(w.body[0].lineno + off, w.body[-1].end_lineno + off + 1))))
+        put(BgServingThread._bg_server, w.lineno, off, "b0", "pre")
     else:
         missing.append("BgServingThread._bg_server:b0")
     targets = set(marks)
@@ -249,6 +259,8 @@ class Sched:
             raise Abort()
         th.state, th.kind, th.cond, th.deadline = "blocked", kind, cond, deadline
         th.acted = 0
+        if kind in ("poll", "cond") and not th.is_bg and not self.enabled(th):
+            self.run.note_blocked(th)
         self._yield(th)
         th.state, th.kind, th.cond, th.deadline = "run", None, None, None
 
@@ -277,8 +289,16 @@ class Sched:
             mark = self.marks.get(frame.f_code, {}).get(frame.f_lineno)
             if mark is not None:
                 label, when = mark
-                if when == "pre":
+                if when == "pre" and label == "b0":
+                    me = frame.f_locals.get("self")
+                    if me._active:
+                        self.log(th, "b0")
+                    else:
+                        self.log_env("stop:%d" % th.tid, "stop", th.tid, th)
+                elif when == "pre":
                     self.log(th, label, self._observe_pre(label, frame))
+                    if label == "d5":
+                        th.pending[frame] = ("d5", ("published", self.run.seq_of(frame.f_locals.get("self"))))
                 else:
                     th.pending[frame] = mark
         return self._local_trace
@@ -292,6 +312,10 @@ class Sched:
             return "%d:%d" % (run.seq_of(me), run.payload_of(run.arg_of(frame, "obj")))
         if label == "d5":
             return "%d" % run.seq_of(me)
+        if label == "w0":
+            return "loop" if (not me._is_ready and not me._ttl.expired()) else "exit"
+        if label == "d2":
+            return "expired" if me.expired else "live"
         if label == "w9":
             return "ready" if me._is_ready else "notready"
         if label == "w10":
@@ -306,17 +330,8 @@ class Sched:
             me = frame.f_locals.get("self")
             ttl = me._ttl
             self.log(th, label, fmt_t(ttl.tmax if ttl.finite else None))
-        elif isinstance(when, tuple) and when[0] == "branch":
-            inside = event == "line" and lineno in when[1]
-            if label == "w0":
-                self.log(th, "w0", "loop" if inside else "exit")
-            elif label == "d2":
-                self.log(th, "d2", "expired" if inside else "live")
-            elif label == "b0":
-                if inside:
-                    self.log(th, "b0")
-                else:
-                    self.log_env("stop:%d" % th.tid, "stop", th.tid, th)
+        elif isinstance(when, tuple) and when[0] == "published":
+            self.run.note_published(when[1])
         elif isinstance(when, tuple) and when[0] == "local":
             t = frame.f_locals.get(when[1])
             self.log(th, "s0", fmt_t(t.tmax if t.finite else None) if isinstance(t, Timeout) else "?")
@@ -684,6 +699,33 @@ class Run:
             return obj
         return -1
 
+    # -- observations of the C14 atoms at the critical moments (tokens `chk:<t>:<R|->`)
+    def owner_of(self, seq):
+        for (t, q) in self.issued:
+            if q == seq:
+                return t
+        return None
+
+    def current_seq(self, tid):
+        mine = [q for (t, q) in self.issued if t == tid]
+        return mine[-1] if len(mine) > len(self.results.get(tid, [])) else None
+
+    def note_blocked(self, th):
+        q = self.current_seq(th.tid)
+        if q is None or q not in self.cells:
+            return
+        ready = bool(self.cells[q]._is_ready)
+        self.sched.log_env("chk:%d:%s" % (th.tid, "R" if ready else "-"), "chk", (th.tid, ready, th.kind))
+
+    def note_published(self, seq):
+        s = self.sched
+        w = self.owner_of(seq)
+        if w is None or w not in s.threads:
+            return
+        th = s.threads[w]
+        if self.current_seq(w) == seq and th.state == "blocked" and th.kind in ("poll", "cond") and not s.enabled(th):
+            s.log_env("chk:%d:R" % w, "chk", (w, True, th.kind))
+
     # -- building the connection under test
     def build(self):
         s = self.sched
@@ -950,3 +992,210 @@ def dfs(case, bound, env, max_runs=None, deadline=None, visit=None, park_all=Fal
             if cur is not None and choice != cur:
                 used += 1
     return runs, True
+
+
+class DirectedChooser:
+    """script items: ("run", tid, label) run thread tid until it has logged `label` (label may be "a|b");
+    ("block", tid) run tid until it is not enabled; ("peer", seq); ("tick",) advance to the next deadline
+    (needs case["early_tick"]).  After the script: the default policy.  `failed` is set when an item could not
+    be followed (the schedule does not exist on this code)."""
+    def __init__(self, script):
+        self.script = list(script)
+        self.k = 0
+        self.mark = 0
+        self.failed = None
+        self.done_at = None
+
+    def __call__(self, run, opts, current):
+        ev = run.sched.events
+        while self.k < len(self.script):
+            item = self.script[self.k]
+            if item[0] == "run":
+                _x, tid, label = item
+                labels = label.split("|")
+                if any(e[1] == tid and e[2] in labels for e in ev[self.mark:]):
+                    self._next(ev)
+                    continue
+                if "T%d" % tid in opts:
+                    return "T%d" % tid
+                self.failed = "thread %d not enabled before logging %s" % (tid, label)
+                self.k = len(self.script)
+                break
+            if item[0] == "block":
+                if "T%d" % item[1] in opts:
+                    return "T%d" % item[1]
+                self._next(ev)
+                continue
+            if item[0] == "peer":
+                self._next(ev)
+                if "P%d" % item[1] in opts:
+                    return "P%d" % item[1]
+                self.failed = "peer cannot answer %d" % item[1]
+                self.k = len(self.script)
+                break
+            if item[0] == "tick":
+                self._next(ev)
+                if "K" in opts:
+                    return "K"
+                continue
+            raise HarnessError("bad script item %r" % (item,))
+        if self.done_at is None:
+            self.done_at = len(run.choices)
+        return default_choice(opts, current)
+
+    def _next(self, ev):
+        self.k += 1
+        self.mark = len(ev)
+
+
+# ------------------------------------------------------------------------------------------------ oracles
+SIG_MAIN = "C14:receiver!=waiter:waiter-acquires-between-release-and-dispatch"
+SIG_LATE = "C14:receiver!=waiter:readiness-tested-before-dispatch-no-notify-after"
+
+
+def calls_of(run):
+    """one dict per client call: tid, seq, tmo, deadline (ttl), result, t_return, dispatch (time, thread, index)"""
+    ev = run.sched.events
+    out = []
+    per_tid = {}
+    for (tid, seq) in run.issued:
+        k = per_tid.get(tid, 0)
+        per_tid[tid] = k + 1
+        calls = run.case["clients"][tid - 1] if 1 <= tid <= len(run.case["clients"]) else []
+        tmo = calls[k] if k < len(calls) else None
+        res = run.results.get(tid, [])
+        r = res[k] if k < len(res) else None
+        t_issue = next((e[4] for e in ev if e[2] == "call" and e[3] == (tid, seq)), None)
+        d5 = [(e[4], e[1], e[0]) for e in ev if e[2] == "d5" and str(e[3]) == str(seq)]
+        out.append(dict(tid=tid, seq=seq, tmo=tmo, t_issue=t_issue, result=None if r is None else r[1],
+                        t_return=None if r is None else r[2], d5=d5))
+    return out
+
+
+def stalls_of(run):
+    """C14's direct oracle: every moment at which a client was blocked in poll()/on the condition although the
+    reply to its request had been processed (`chk:<t>:R`), with the (virtual) dispatch and return times and the
+    schedule signature."""
+    ev = run.sched.events
+    out = []
+    seen = set()
+    calls = calls_of(run)
+    for e in ev:
+        if e[2] != "chk" or not e[3][1]:
+            continue
+        w = e[3][0]
+        c = [c for c in calls if c["tid"] == w and c["d5"] and c["d5"][0][2] < e[0]]
+        if not c:
+            out.append(dict(tid=w, signature="C14:other:ready-without-dispatch", at=e[0]))
+            continue
+        c = c[-1]
+        if (w, c["seq"]) in seen:
+            continue
+        seen.add((w, c["seq"]))
+        t_d, r, i_d5 = c["d5"][0]
+        mine = [x for x in ev if x[1] == w and x[2] not in ("chk",)]
+        w0s = [x for x in mine if x[2] == "w0" and x[0] < i_d5]
+        sig = None
+        shape = ""
+        if r == w:
+            sig = "C14:receiver==waiter:unexpected"
+        elif not w0s:
+            sig = "C14:other:no-readiness-test-before-dispatch"
+        else:
+            i_w0 = w0s[-1][0]
+            after = [x for x in mine if x[0] > i_w0]
+            s2 = next((x for x in after if x[2] == "s2"), None)
+            if s2 is None:
+                sig = "C14:other:no-trylock"
+            elif s2[3] == "ok":
+                r0 = [x for x in ev if x[1] == r and x[2] == "r0" and x[0] < i_d5]
+                if r0 and r0[-1][0] < s2[0] < i_d5:
+                    sig, shape = SIG_MAIN, "waiter took the receive lock after the receiver's release and before its dispatch, blocked in poll()"
+                elif s2[0] > i_d5:
+                    sig, shape = SIG_LATE, "waiter tested readiness before the dispatch, took the receive lock after it, blocked in poll()"
+                else:
+                    sig = "C14:other:lock-order"
+            else:
+                sig, shape = SIG_LATE, "waiter tested readiness before the dispatch, then failed the try-lock (held by a thread polling for other traffic) and sleeps on the condition; nobody notifies after the dispatch"
+        out.append(dict(tid=w, seq=c["seq"], receiver=r, t_dispatch=t_d, t_return=c["t_return"], tmo=c["tmo"],
+                        blocked_in=e[3][2], signature=sig, shape=shape, at=e[0]))
+    return out
+
+
+def c13_violations(run):
+    """C13's direct oracle on one run of the real code: list of (signature, text)"""
+    out = []
+    ev = run.sched.events
+    seqs = [q for (_t, q) in run.issued]
+    if len(set(seqs)) != len(seqs):
+        out.append(("C13:seq-reused", "sequence numbers handed out: %r" % (run.issued,)))
+    fids = [f for (f, _t) in run.received]
+    if len(set(fids)) != len(fids):
+        out.append(("C13:frame-received-twice", "frames received: %r" % (run.received,)))
+    dc = {}
+    for fid, _t in run.dispatched:
+        dc[fid] = dc.get(fid, 0) + 1
+    for fid, n in sorted(dc.items()):
+        if n > 1:
+            out.append(("C13:frame-dispatched-twice", "frame %d dispatched %d times" % (fid, n)))
+    if run.outcome == "finished":
+        for fid in fids:
+            if dc.get(fid, 0) != 1:
+                out.append(("C13:frame-not-dispatched", "frame %d was received but dispatched %d times" % (fid, dc.get(fid, 0))))
+    answers = {}                # seq -> every (exc, payload) the peer answered (more than one only in `dup` cases)
+    for (fid, seq, exc, val) in run.frames_sent:
+        answers.setdefault(seq, []).append((exc, val))
+    compl = {}
+    for e in ev:
+        if e[2] == "d5":
+            compl[str(e[3])] = compl.get(str(e[3]), 0) + 1
+    for q, n in sorted(compl.items()):
+        if n > 1:
+            out.append(("C13:request-completed-twice", "request %s: _is_ready stored %d times" % (q, n)))
+    for c in calls_of(run):
+        res = c["result"]
+        if res is None:
+            continue
+        if res.startswith("value:"):
+            _v, e, val = res.split(":", 2)
+            want = answers.get(c["seq"], [])
+            if (e, val) not in [(("1" if w[0] else "0"), str(w[1])) for w in want]:
+                out.append(("C13:wrong-reply", "thread %d request %d returned %s, the peer answered %r" % (c["tid"], c["seq"], res, want)))
+        elif res == "timeout":
+            i_call = next((y[0] for y in ev if y[2] == "call" and y[3] == (c["tid"], c["seq"])), -1)
+            ttl = next((x[3] for x in ev if x[1] == c["tid"] and x[2] == "c3" and x[0] > i_call), None)
+            if c["tmo"] is None:
+                out.append(("C13:spurious-timeout", "thread %d request %d raised a timeout without having one" % (c["tid"], c["seq"])))
+            elif ttl is not None and ttl != "inf" and c["t_return"] < float(ttl):
+                out.append(("C13:early-timeout", "thread %d request %d timed out at %s before its deadline %s" % (c["tid"], c["seq"], c["t_return"], ttl)))
+            else:
+                # a publication racing with the deadline may legitimately come after the caller's final test;
+                # one that precedes the final readiness test must have been seen
+                i_w9 = next((x[0] for x in ev if x[1] == c["tid"] and x[2] == "w9" and x[0] > i_call), None)
+                if c["d5"] and i_w9 is not None and c["d5"][0][2] < i_w9:
+                    out.append(("C13:completed-but-timeout", "thread %d request %d: the result was published before the "
+                                "caller's final readiness test, yet it raised a timeout" % (c["tid"], c["seq"])))
+        else:
+            out.append(("C13:unexpected-exception", "thread %d request %d: %s" % (c["tid"], c["seq"], res)))
+    for tid, err in sorted(getattr(run, "thread_errors", {}).items()):
+        out.append(("C13:thread-died", "thread %d: %s" % (tid, err)))
+    if run.outcome in ("deadlock", "horizon"):
+        pending = [f for (f, _d) in run.chan.frames]
+        for c in calls_of(run):
+            if c["result"] is not None:
+                continue
+            cell = run.cells.get(c["seq"])
+            ready = bool(cell is not None and cell._is_ready)
+            if ready:
+                continue            # its reply was processed: the stall is C14's subject (F3), not C13's
+            answered = [fid for (fid, seq, _e, _v) in run.frames_sent if seq == c["seq"]]
+            if any(f in pending for f in answered) or (run.outcome == "deadlock" and pending):
+                out.append(("C13:%s-with-data-pending" % run.outcome,
+                            "thread %d request %d: no thread can run (%s) while frames %r are unread; threads: %r"
+                            % (c["tid"], c["seq"], run.outcome, pending, run.blocked_at_end)))
+            elif answered and all(dc.get(f, 0) >= 1 for f in answered):
+                out.append(("C13:reply-lost", "thread %d request %d: its reply was dispatched but the request never completed (%s)"
+                            % (c["tid"], c["seq"], run.outcome)))
+            elif run.outcome == "deadlock":
+                out.append(("C13:deadlock", "thread %d request %d never completes; threads: %r" % (c["tid"], c["seq"], run.blocked_at_end)))
+    return out
